@@ -393,6 +393,10 @@ func ruleGARGS(p *Program, r *Reporter) {
 					if a == args {
 						pi = i
 					}
+					// the list under a type of its own (params(args).atLeast(2))
+					if ct, isCT := a.(*ssa.ChangeType); isCT && ct.X == args {
+						pi = i
+					}
 				}
 				if pi < 0 || pi >= len(g.Params) {
 					continue
@@ -401,6 +405,12 @@ func ruleGARGS(p *Program, r *Reporter) {
 					continue
 				}
 				fg := newFlowCtx(g)
+				fg.constBind = map[*ssa.Parameter]int64{}
+				for i, a := range c2.Call.Args {
+					if k, isC := constInt(a); isC && i < len(g.Params) {
+						fg.constBind[g.Params[i]] = k
+					}
+				}
 				all, nret := true, 0
 				for _, gb := range g.Blocks {
 					ret, isRet := gb.Instrs[len(gb.Instrs)-1].(*ssa.Return)
